@@ -6,7 +6,7 @@ from .common import Exc
 from .url_grammar import gen_su, spelling_variants, call, gen_url
 from .norm_common import DEFAULTS
 
-THEOREMS = ['C04_inference_is_a_prestep'] + ["(main statement: harness deciders on the implementation + model correspondence — partial)"]
+THEOREMS = ['C04_inference_is_a_prestep', 'C04_query_order_irrelevant'] + ["(main statement: harness deciders on the implementation + model correspondence — partial)"]
 TRACKING = ["utm_source=x", "utm_campaign=a%20b", "fbclid=IwAR", "gclid=1", "ref=twitter", "ref=fb", "m=1", "s=09", "amp=1", "amp_js_v=0.1", "outputType=amp", "UTM_MEDIUM=z",
             "__twitter_impression=true", "sessionid=4", "mode=amp", "spref=tw", "_ga=2.1", "at_medium=c", "xtor=RSS-1", "phpsessionid=1", "JSESSIONID=2", "usqp=mq331AQ", "mc_cid=7"]
 
